@@ -6,7 +6,9 @@ import (
 	"time"
 
 	sdk "github.com/cosmos/cosmos-sdk/types"
+	vestingtypes "github.com/cosmos/cosmos-sdk/x/auth/vesting/types"
 	banktypes "github.com/cosmos/cosmos-sdk/x/bank/types"
+	"github.com/cosmos/cosmos-sdk/x/feegrant"
 	abci "github.com/tendermint/tendermint/abci/types"
 
 	"verifsim/kernel"
@@ -156,7 +158,8 @@ func execTrace(tr *kernel.Trace, src kernel.Source, mons []kernel.Monitor, useBa
 
 // bankSendGen: a client sends part of its balance of a random denom to another address, paying a small fee
 // in a random denom it holds (fees land in fee_collector, a typical distributor source).
-func bankSendGen(senders []string, recipients []string, withFees bool) TxGen {
+func bankSendGen(senders []string, recipients []string, withFees bool, squat ...bool) TxGen {
+	allowSquat := len(squat) > 0 && squat[0]
 	return func(r *kernel.Run, rng *kernel.Rng) *kernel.Tx {
 		from := senders[rng.Intn(len(senders))]
 		bal := r.Chain.BalanceOf(kernel.ActorAddr(from))
@@ -177,7 +180,20 @@ func bankSendGen(senders []string, recipients []string, withFees bool) TxGen {
 				to = kernel.DistMainAddr().String()
 			}
 		}
-		msg := &banktypes.MsgSend{FromAddress: kernel.ActorBech(from), ToAddress: to, Amount: sdk.NewCoins(sdk.NewCoin(coin.Denom, amt))}
+		var msg sdk.Msg = &banktypes.MsgSend{FromAddress: kernel.ActorBech(from), ToAddress: to, Amount: sdk.NewCoins(sdk.NewCoin(coin.Denom, amt))}
+		if allowSquat && rng.Intn(25) == 0 {
+			// other SDK routes that create an account at an address somebody names: a fee allowance for, or a periodic
+			// vesting account at, the address of a collector module account (which may not exist in the store yet)
+			target := kernel.ModuleAddr(distModuleAccounts[rng.Intn(len(distModuleAccounts))])
+			if rng.Bool() {
+				if g, err := feegrant.NewMsgGrantAllowance(&feegrant.BasicAllowance{}, kernel.ActorAddr(from), target); err == nil {
+					msg = g
+				}
+			} else {
+				msg = vestingtypes.NewMsgCreatePeriodicVestingAccount(kernel.ActorAddr(from), target, r.Chain.Now.Unix(),
+					[]vestingtypes.Period{{Length: 1, Amount: sdk.NewCoins(sdk.NewCoin(coin.Denom, sdk.OneInt()))}})
+			}
+		}
 		js, err := kernel.MsgToJSON(msg)
 		if err != nil {
 			return nil
